@@ -2,6 +2,7 @@
 (model/implementation equality for every size, constructor stream, validity / rank / bijection evaluated directly
 on the implementation), the translator correspondence, and the two basic codes."""
 import json
+import traceback
 
 import numpy as np
 
@@ -163,69 +164,78 @@ def pauli_histories(ctx):
              (RotatedToricCode(4, 4), lambda c: fam_rot(c, True)), (Color666Code(3), fam_color), (Color666Code(5), fam_color)]
     LET = {(0, 0): 'I', (1, 0): 'X', (0, 1): 'Z', (1, 1): 'Y'}
     for code, fam in cases:
-        sites, ops = fam(code)
-        n = code.n_k_d[0]
-        pos = {}
-        for s_ in sites:
-            b = code.new_pauli().site('X', s_).to_bsf()
-            nz = np.flatnonzero(b)
-            pos[s_] = int(nz[0]) if len(nz) == 1 else None
-        snap = {nm: np.array(getattr(code, nm)).copy() for nm in ('stabilizers', 'logical_xs', 'logical_zs', 'logicals')}
-        for trial in range(ctx.pick(12, 60)):
-            hist = []
-            p0 = src = None
-            if trial % 3 == 2:
-                # a Pauli built on a published row (a view, by design), then copy() - the copy is the caller's to change
-                nm = rng.choice(['stabilizers', 'logical_xs', 'logical_zs', 'logicals'])
-                mat = getattr(code, nm)
-                ri = rng.randrange(len(mat))
-                src = mat[ri]
-                p0 = code.new_pauli(src)
-                p = p0.copy()
-                hist.append('new_pauli(%s[%d]).copy()' % (nm, ri))
-                if rng.random() < 0.4:
-                    p = p.copy()
-                    hist.append('copy()')
-                cur = snap[nm][ri].copy()
-                src_snap = cur.copy()
-            else:
-                p = code.new_pauli()
-                cur = p.to_bsf().copy() if rng.random() < 0.7 else np.zeros(2 * n, dtype=int)
-            for step in range(rng.randint(2, 8)):
-                name, f = ops()
-                hist.append(name)
-                delta = f(code.new_pauli()).to_bsf()
-                f(p)
-                cur = cur ^ delta
-                reads = rng.random() < 0.8          # sometimes several operations happen between reads
-                if not reads and step < 7:
-                    continue
-                got = p.to_bsf()
-                ctx.count(('pauli-history', repr(code), trial, step), True, 'pauli-history',
-                          {'code': repr(code), 'history': list(hist)} if len(ctx.samples) < 7 else None)
-                rep = {'code': repr(code), 'history': list(hist), 'to_bsf': rowsstr([got]), 'expected': rowsstr([cur])}
-                if not np.array_equal(got, cur):
-                    ctx.violation('pauli-bsf-history', 'to_bsf() after a sequence of operations is not the XOR of the '
-                                  'operations (stale or inconsistent binary symplectic form)', rep)
-                    break
-                bad = [s_ for s_ in sites if pos[s_] is not None and
-                       p.operator(s_) != LET[(int(got[pos[s_]]), int(got[n + pos[s_]]))]]
-                if bad:
-                    ctx.violation('pauli-site-access', 'operator(index) disagrees with the bsf', dict(rep, sites=bad[:4]))
-                    break
-                if not (p == code.new_pauli(got.copy())) or not np.array_equal(p.copy().to_bsf(), got):
-                    ctx.violation('pauli-eq-copy', 'equality / copy disagree with the bsf', rep)
-                    break
-            rep = {'code': repr(code), 'history': list(hist)}
-            if p0 is not None and (not np.array_equal(p0.to_bsf(), src_snap) or not np.array_equal(src, src_snap)):
-                ctx.violation('pauli-copy-aliases', 'operations on a copy() changed the Pauli it was copied from / the array '
-                              'that Pauli was built on', rep)
-            changed = [nm for nm in snap if not np.array_equal(getattr(code, nm), snap[nm])
-                       or not np.array_equal(getattr(type(code)(*code_args(code)), nm), snap[nm])]
-            if changed:
-                ctx.violation('code-matrices-changed', 'the code\'s published %s changed after operations on Pauli copies '
-                              '(this and every later equal code now publishes them)' % ', '.join(changed), rep)
+        try:
+            _pauli_history_case(ctx, rng, code, fam, LET)
+        except Exception as e:  # noqa
+            ctx.violation('pauli-history-raises', 'a documented lattice-Pauli / code call raises %s on an accepted size'
+                          % type(e).__name__, {'code': repr(code), 'exception': repr(e)[:200],
+                                               'trace': traceback.format_exc()[-700:]})
+
+
+def _pauli_history_case(ctx, rng, code, fam, LET):
+    sites, ops = fam(code)
+    n = code.n_k_d[0]
+    pos = {}
+    for s_ in sites:
+        b = code.new_pauli().site('X', s_).to_bsf()
+        nz = np.flatnonzero(b)
+        pos[s_] = int(nz[0]) if len(nz) == 1 else None
+    snap = {nm: np.array(getattr(code, nm)).copy() for nm in ('stabilizers', 'logical_xs', 'logical_zs', 'logicals')}
+    for trial in range(ctx.pick(12, 60)):
+        hist = []
+        p0 = src = None
+        if trial % 3 == 2:
+            # a Pauli built on a published row (a view, by design), then copy() - the copy is the caller's to change
+            nm = rng.choice(['stabilizers', 'logical_xs', 'logical_zs', 'logicals'])
+            mat = getattr(code, nm)
+            ri = rng.randrange(len(mat))
+            src = mat[ri]
+            p0 = code.new_pauli(src)
+            p = p0.copy()
+            hist.append('new_pauli(%s[%d]).copy()' % (nm, ri))
+            if rng.random() < 0.4:
+                p = p.copy()
+                hist.append('copy()')
+            cur = snap[nm][ri].copy()
+            src_snap = cur.copy()
+        else:
+            p = code.new_pauli()
+            cur = p.to_bsf().copy() if rng.random() < 0.7 else np.zeros(2 * n, dtype=int)
+        for step in range(rng.randint(2, 8)):
+            name, f = ops()
+            hist.append(name)
+            delta = f(code.new_pauli()).to_bsf()
+            f(p)
+            cur = cur ^ delta
+            reads = rng.random() < 0.8          # sometimes several operations happen between reads
+            if not reads and step < 7:
+                continue
+            got = p.to_bsf()
+            ctx.count(('pauli-history', repr(code), trial, step), True, 'pauli-history',
+                      {'code': repr(code), 'history': list(hist)} if len(ctx.samples) < 7 else None)
+            rep = {'code': repr(code), 'history': list(hist), 'to_bsf': rowsstr([got]), 'expected': rowsstr([cur])}
+            if not np.array_equal(got, cur):
+                ctx.violation('pauli-bsf-history', 'to_bsf() after a sequence of operations is not the XOR of the '
+                              'operations (stale or inconsistent binary symplectic form)', rep)
                 break
+            bad = [s_ for s_ in sites if pos[s_] is not None and
+                   p.operator(s_) != LET[(int(got[pos[s_]]), int(got[n + pos[s_]]))]]
+            if bad:
+                ctx.violation('pauli-site-access', 'operator(index) disagrees with the bsf', dict(rep, sites=bad[:4]))
+                break
+            if not (p == code.new_pauli(got.copy())) or not np.array_equal(p.copy().to_bsf(), got):
+                ctx.violation('pauli-eq-copy', 'equality / copy disagree with the bsf', rep)
+                break
+        rep = {'code': repr(code), 'history': list(hist)}
+        if p0 is not None and (not np.array_equal(p0.to_bsf(), src_snap) or not np.array_equal(src, src_snap)):
+            ctx.violation('pauli-copy-aliases', 'operations on a copy() changed the Pauli it was copied from / the array '
+                          'that Pauli was built on', rep)
+        changed = [nm for nm in snap if not np.array_equal(getattr(code, nm), snap[nm])
+                   or not np.array_equal(getattr(type(code)(*code_args(code)), nm), snap[nm])]
+        if changed:
+            ctx.violation('code-matrices-changed', 'the code\'s published %s changed after operations on Pauli copies '
+                          '(this and every later equal code now publishes them)' % ', '.join(changed), rep)
+            break
 
 
 def run(ctx):
@@ -234,10 +244,13 @@ def run(ctx):
                 'bijection evaluated on the implementation; translated integer kernels vs Python originals on a grid '
                 'inside the kernel. nontrivial = non-square or minimal size / argument-carrying case')
     lat_common.prepare(ctx)
-    lat_common.cold_queries(ctx)
+    lat_common.stage(ctx, 'interrupted_evaluations', lat_common.interrupted_evaluations)
+    lat_common.stage(ctx, 'cold_queries', lat_common.cold_queries)
     fams = lat_common.run_families(ctx, 'check_c07')
-    basic_codes(ctx)
-    pauli_histories(ctx)
+    lat_common.stage(ctx, 'basic_codes', basic_codes)
+    lat_common.stage(ctx, 'pauli_histories', pauli_histories)
+    lat_common.stage(ctx, 'optimised_mode', lat_common.optimised_mode)
+    lat_common.stage(ctx, 'final_recheck', lat_common.final_recheck)
     ctx.extra['families'] = fams + ['basic']
 
 
